@@ -875,6 +875,116 @@ static void real_pool_cases(const char* name, Rng& g, bool thorough)
     LOG.clear();
 }
 
+//=== C11 / C20: joint objects of over-aligned types, and failures BEFORE the object's constructor is entered ===//
+// own recording allocator: honours any alignment, fills what it hands out (so that nothing sensible can be read from a block
+// whose object was never constructed), insists on the same size and alignment at the release
+struct ExactAlloc
+{
+    using is_stateful = std::true_type;
+    struct Rec
+    {
+        void*       p;
+        std::size_t size, align;
+    };
+    std::vector<Rec>* out;
+    explicit ExactAlloc(std::vector<Rec>& o) : out(&o) {}
+    void* allocate_node(std::size_t size, std::size_t align)
+    {
+        void* p = nullptr;
+        if (posix_memalign(&p, align < sizeof(void*) ? sizeof(void*) : align, size ? size : 1) != 0)
+            throw std::bad_alloc();
+        std::memset(p, 0xCD, size);
+        out->push_back({p, size, align});
+        return p;
+    }
+    void deallocate_node(void* p, std::size_t size, std::size_t align) noexcept
+    {
+        for (std::size_t i = 0; i < out->size(); ++i)
+            if ((*out)[i].p == p)
+            {
+                if ((*out)[i].size != size || (*out)[i].align != align)
+                    fail(fmt("joint block obtained as node(size %zu, alignment %zu) given back as node(size %zu, alignment %zu)", (*out)[i].size,
+                             (*out)[i].align, size, align));
+                out->erase(out->begin() + long(i));
+                std::free(p);
+                return;
+            }
+        fail("joint block released that is not outstanding");
+    }
+};
+template <std::size_t A>
+struct alignas(A) JWide : joint_type<JWide<A>>
+{
+    joint_array<int> arr;
+    long             tag = 7;
+    JWide(joint j, std::size_t n) : joint_type<JWide<A>>(j), arr(n, *this) {}
+    JWide(joint j, const JWide& o) : joint_type<JWide<A>>(j), arr(o.arr, *this), tag(o.tag) {}
+};
+struct ThrowOnCopy
+{
+    bool armed = false;
+    ThrowOnCopy() = default;
+    ThrowOnCopy(const ThrowOnCopy& o) : armed(o.armed)
+    {
+        if (armed)
+            throw ElemFail{-2};
+    }
+};
+struct JArg : joint_type<JArg>
+{
+    joint_array<int> arr;
+    JArg(joint j, ThrowOnCopy, std::size_t n) : joint_type<JArg>(j), arr(n, *this) {} // the argument is copied BEFORE this constructor runs
+};
+template <std::size_t A>
+static void wide_case()
+{
+    std::vector<ExactAlloc::Rec> out;
+    ExactAlloc                   a(out);
+    {
+        auto jp = allocate_joint<JWide<A>>(a, joint_size(64), std::size_t(5));
+        ++n_cases;
+        if (out.size() != 1 || out[0].align < alignof(JWide<A>) || out[0].size != sizeof(JWide<A>) + 64)
+            fail(fmt("joint object of a type aligned to %zu: the block was requested as node(size %zu, alignment %zu)", alignof(JWide<A>),
+                     out.empty() ? 0 : out[0].size, out.empty() ? 0 : out[0].align));
+        if (reinterpret_cast<std::uintptr_t>(jp.get()) % alignof(JWide<A>) != 0)
+            fail(fmt("joint object of a type aligned to %zu is misaligned", alignof(JWide<A>)));
+        auto cl = clone_joint(a, *jp);
+        if (reinterpret_cast<std::uintptr_t>(cl.get()) % alignof(JWide<A>) != 0 || cl->arr.size() != 5)
+            fail(fmt("clone of a joint object aligned to %zu is misaligned or incomplete", alignof(JWide<A>)));
+        joint_ptr<JWide<A>, ExactAlloc> moved(std::move(jp));
+        moved = nullptr; // release through reset()
+    }
+    if (!out.empty())
+        fail("joint block of an over-aligned type never released");
+}
+static void early_throw_case()
+{
+    std::vector<ExactAlloc::Rec> out;
+    ExactAlloc                   a(out);
+    for (int round = 0; round < 3; ++round)
+    {
+        ThrowOnCopy t;
+        t.armed = round != 1;
+        bool threw = false;
+        try
+        {
+            auto jp = allocate_joint<JArg>(a, joint_size(48 + 16 * std::size_t(round)), t, std::size_t(3));
+        }
+        catch (ElemFail&)
+        {
+            threw = true;
+        }
+        ++n_cases;
+        if (threw != t.armed)
+            fail("allocate_joint: an exception thrown while the constructor's arguments are built did not propagate");
+        if (!out.empty())
+        {
+            fail("allocate_joint: the block is not given back when an argument of the constructor throws");
+            out.clear();
+        }
+    }
+}
+
 int main(int argc, char** argv)
 {
     bool               thorough = argc > 1 && std::atoi(argv[1]) != 0;
@@ -920,6 +1030,10 @@ int main(int argc, char** argv)
             }
         LOG.clear();
     }
+    wide_case<16>();
+    wide_case<32>();
+    wide_case<64>();
+    early_throw_case();
     // joint_allocator histories (C11): releases in any order, vector-like regrowth
     for (int i = 0; i < (thorough ? 400 : 60); ++i)
         run_joint_history(st, g, 16 + g.below(200), 4 + int(g.below(14)), i % 3 == 0);
